@@ -582,7 +582,7 @@ LEGACY_CYCLE_SLASH_TASK = re.compile(
     rf'''
         ^
         # NOTE: legacy cycles always start with a number
-        (?P<{IDTokens.Cycle.value}>\d[^~\.\:\/\n]+)
+        (?P<{IDTokens.Cycle.value}>\d[^~\.\:\/\n]*)
         \/
         # NOTE: task names can contain "."
         (?P<{IDTokens.Task.value}>[^~\:\/\n]+)
